@@ -94,7 +94,7 @@ class CMSys(E1):
 
     def factory(self):
         c = self.cfg
-        return SK.make(c["kind"], *c["args"])
+        return SK.make(c["kind"], *c["args"], shared_memory=bool(c.get("shared")))
 
     def init(self, cfg):
         self.cfg = cfg
@@ -102,7 +102,9 @@ class CMSys(E1):
         self.is_log = self.kind != "linear"
         self.width = int(cfg["args"][0])
         self.depth = int(cfg["args"][1])
-        self._probe = M2.Probe(self.factory)
+        # cell ownership is a function of (key, row, width): it is probed on an in-memory
+        # sketch of the same class/shape even when the system under test lives in shared memory
+        self._probe = M2.Probe(lambda: SK.make(cfg["kind"], *cfg["args"]))
         work = [self.factory() for _ in range(cfg["S"])]
         for w in work:
             if self.is_log:
@@ -135,6 +137,10 @@ class CMSys(E1):
                 for v in c["mults"]:
                     for dr in self.draw_vectors(v):
                         yield ("add", s, k, v, dr)
+        if c.get("updates"):
+            for s in range(S):
+                yield ("upd", s, (self.alpha[0], self.alpha[1], self.alpha[0]), "list")
+                yield ("upd", s, (self.alpha[2], self.alpha[1]), "iter")
         for s in range(S):
             for x, n in c.get("ngrams", ()):
                 x = bytes(x)
@@ -198,6 +204,21 @@ class CMSys(E1):
                 SK.install_draws(work[s], list(dr))
             work[s].add(k, v)
             m[s][k] = m[s].get(k, 0) + v
+        elif op == "upd":
+            _, s, ks, how = ev
+            ks = [bytes(k) for k in ks]
+            if self.is_log:
+                SK.install_draws(work[s], [ADV] * len(ks))
+            try:
+                work[s].update(ks if how == "list" else iter(ks))
+                accepted = True
+            except TypeError:
+                accepted = how == "list"  # a one-shot iterable may be refused, a list may not
+                if accepted:
+                    raise
+            if accepted:
+                for k in ks:
+                    m[s][k] = m[s].get(k, 0) + 1
         elif op == "ngram":
             _, s, x, n, dr = ev
             if self.is_log:
@@ -227,7 +248,7 @@ class CMSys(E1):
             if hit is None:
                 work[s].save(self.file)
                 self._sync()
-                work[s] = type(work[s]).load(self.file)
+                work[s] = type(work[s]).load(self.file, bool(self.cfg.get("shared")))
                 if self.is_log:
                     SK.install_draws(work[s], [])
                 if memo_ok and not (self.G.capture() if hasattr(self, "G") else ()):
@@ -427,6 +448,13 @@ def with_alphabet(cfg, seed):
     w, d = cfg["args"][0], cfg["args"][1]
     probe = M2.Probe(lambda: SK.make(cfg["kind"], *cfg["args"]))
     keys = M2.choose_alphabet(probe, w, d, M2.pool(seed))
+    if cfg.get("shared"):
+        # one key that owns the LAST cell of the table (where bookkeeping counters that are
+        # laid out too early would overlap)
+        for k in M2.pool(seed):
+            if k not in keys[:2] and probe.cols(k)[d - 1] == w - 1:
+                keys = [keys[0], keys[1], k]
+                break
     cfg = dict(cfg)
     cfg["keys"] = keys
     return cfg
